@@ -216,6 +216,7 @@ def _expand_partial_output(partial, sl_map, output_unroll_info):
     if not partial.struct.t:
         return partial  # empty tensor: nothing to expand
 
+    partial = partial.consume_transpose()  # below, output axes index the stored blocks directly
     config = partial.config
     backend = config.backend
     nsym = config.sym.NSYM
